@@ -114,6 +114,19 @@ def make_pool(r):
     P.add("FixedArray(empty caption)", FixedArray(3, ObtainQuantity("cm", "depth", ""), [1.0, 2.0, 4.0]))
     P.add("Scalar(unknown, empty caption)", Scalar(GetUnknownQuantity(""), 1.5))
     P.add("Scalar(m/s, caption)", Scalar(ObtainQuantity(OrderedDict([("length", ["m", 1]), ("time", ["s", -1])]), None, "a caption"), 2.0))
+    # containers from elsewhere: an ndarray in the other byte order (read from a file written on another platform), a list whose
+    # items are numpy rows, a tuple of 0-d arrays
+    be = np.array([1.0, 2.0, 4.0], dtype=">f8")
+    P.add("Array[nd big-endian]", Array("length", be, "cm"), be)
+    be2 = np.array([1.0, 2.0, 4.0], dtype=">f8")
+    P.add("FixedArray[nd big-endian]", FixedArray(3, "length", be2, "m"), be2)
+    rows = [np.array([1.0, 2.0]), np.array([3.0, 4.0])]
+    try:
+        P.add("Array[list of nd rows]", Array("length", rows, "m"), rows)
+        zs = (np.array(1.5), np.array(2.5))
+        P.add("Array[tuple of 0-d]", Array("length", zs, "m"), zs)
+    except Exception:
+        pass
     # amounts that are exactly zero in a unit whose zero is not the zero of the category's default unit
     P.add("Scalar(0.0 degC)", Scalar(0.0, "degC"))
     P.add("Scalar(int 0 degF)", Scalar("temperature", 0, "degF"))
@@ -245,6 +258,26 @@ def one_history(ctx, gid, n_steps, mon):
                     ctx.violation("operand-changed-by:%s" % qual, dict(case, before=repr(before)[:300], after=repr(after)[:300]), replay=case)
                 for lbl, before, after in P.check():
                     ctx.violation("pool-member-changed:%s:after:%s" % (lbl.split("#")[0], how), dict(case, member=lbl, before=repr(before)[:300], after=repr(after)[:300]), replay=case)
+        # every member re-expressed in every unit of its pool, and operated with a plain number on the right (each member at least
+        # once, whatever the random steps below pick)
+        for label, a, _s in list(P.members):
+            if not monitors_is_value(a) or not hasattr(a, "GetQuantity"):
+                continue
+            for what in ["unit:%s" % u_ for u_ in units_for(a)] + ["* 2", "/ 2.0", "+ 1", "- 0.5", "// 2"]:
+                case = dict(base_case, step=-1, op=[what, type(a).__name__], label=label)
+                ctx.ev()
+                try:
+                    if what.startswith("unit:"):
+                        (a.GetValues if isinstance(a, Array) else a.GetValue)(what[5:])
+                        a.CreateCopy(unit=what[5:])
+                    else:
+                        {"* 2": lambda: a * 2, "/ 2.0": lambda: a / 2.0, "+ 1": lambda: a + 1, "- 0.5": lambda: a - 0.5, "// 2": lambda: a // 2}[what]()
+                except Exception:
+                    pass
+                for qual, before, after in mon.drain():
+                    ctx.violation("operand-changed-by:%s" % qual, dict(case, before=repr(before)[:300], after=repr(after)[:300]), replay=case)
+                for lbl, before, after in P.check():
+                    ctx.violation("pool-member-changed:%s:after:%s" % (lbl.split("#")[0], what.split(":")[0]), dict(case, member=lbl, before=repr(before)[:300], after=repr(after)[:300]), replay=case)
         # the augmented spellings (x *= 2 ...): a name is re-bound, the object it named before - still referred to by the pool,
         # by copies, by the caller's container - is what it was
         for label, a, _s in list(P.members):
